@@ -1,6 +1,6 @@
 //! C33 — Contract storage instructions behave like a key-value map.
 //!
-//! Explicit-state model check (vcore::bfs). Every transition executes ONE real
+//! Explicit-state model check (a `vcore::bfs::Model`). Every transition executes ONE real
 //! instruction with `Interpreter::instruction` (vmkit::inject) on a real interpreter
 //! that is paused INSIDE a contract's call frame, over a real `MemoryStorage`.
 //!
